@@ -36,12 +36,13 @@ func (c05) Batches(tier string, seed uint64) []core.Batch {
 	b = append(b, spread("corpus", 2, 0)...) // relationship fields of this machine's dpkg database
 	b = append(b, spread("arch", 4, 0)...)
 	b = append(b, spread("exh", 16, 0)...)
+	b = append(b, core.Batch{Name: "volume", N: tierN(tier, 150_000, 3_000_000)}) // one case, one process: see volume.go
 	return append(b, conc(tierN(tier, 300, 2000), "grammar", "mutant")...)
 }
 
 func (c05) Mandatory(tier string) []string {
 	return []string{"accepted:grammar", "accepted:mutant", "accepted:raw", "accepted:exhaustive", "accepted:big", "big:field>=12KiB", "has:substvar", "has:qualifier", "has:version", "has:archlist", "has:negated-archlist",
-		"has:profiles", "has:non-ascii", "has:wildcard-arch", "arch:arity1", "arch:arity2", "arch:arity3", "arch:arity4", "arch:wildcard", "arch:real-port"}
+		"has:profiles", "has:non-ascii", "has:wildcard-arch", "arch:arity1", "arch:arity2", "arch:arity3", "arch:arity4", "arch:wildcard", "arch:real-port", "volume:dependency-fields-parsed-in-one-process"}
 }
 
 // normalised, comparable view of a parse result.
@@ -100,6 +101,10 @@ func (p c05) RunBatch(t *core.T, b core.Batch) {
 	}
 	r := t.Rand(b.Name, fmt.Sprint(b.Arg))
 	switch b.Name {
+	case "volume":
+		in := volInput(r.U64(), b.N)
+		vc, _ := volDecode(in)
+		t.Case("volume", in, func(c *core.C) { volumeDeps(c, t, vc) })
 	case "corpus":
 		vals := corpusFieldValues("Depends", "Pre-Depends", "Recommends", "Suggests", "Breaks", "Conflicts", "Replaces", "Provides", "Enhances", "Built-Using")
 		if len(vals) == 0 {
@@ -379,6 +384,10 @@ func (c05) fix(c *core.C, s, source string) {
 
 func (p c05) RunCase(t *core.T, kind string, input []byte) {
 	switch kind {
+	case "volume":
+		if vc, ok := volDecode(input); ok {
+			t.Case(kind, input, func(c *core.C) { volumeDeps(c, t, vc) })
+		}
 	case "dep":
 		t.Case(kind, input, func(c *core.C) { p.fix(c, string(input), "replay") })
 	case "arch":
